@@ -313,13 +313,15 @@ func runAmtCase(ci interface{}, rec *pbt.Rec) *pbt.Failure {
 	return nil
 }
 
-func TestC11(t *testing.T) {
-	(&pbt.Check{
+func checkC11() *pbt.Check {
+	return &pbt.Check{
 		ID:          "C11",
 		Rule:        "single-message experiments: withdrawal requests (amounts/fees 1..2^255 biased to powers of ten and two, decimals 0..24, rates with 18 fractional digits, holder values at tier boundaries +-1 in three spellings, exact/insufficient balances, wrong or unknown denoms) and deposits (SendToHub, TransferToChain->hub) judged by exact big-integer arithmetic; non-trivial = a request that must fail, or a holder value within 1 unit of a tier, or a conversion that truncates, or a deposit with a fee field; distinct = distinct case JSON",
 		Gen:         genAmtCase,
 		New:         func() interface{} { return &AmtCase{} },
 		Run:         runAmtCase,
 		Assumptions: []string{"holder lookups: sender by bech32 string, recipient by hex without 0x, case-insensitive; a holder-list entry written with a 0x prefix never matches (as x/oracle GetHolderValue and GetCommissionForHolder behave)"},
-	}).Main(t)
+	}
 }
+
+func TestC11(t *testing.T) { checkC11().Main(t) }
